@@ -10,4 +10,6 @@ cd "$(dirname "$0")/../.."
 cp "$VERIF_MODFILE" "$BUILD/c06.mod"
 cp "${VERIF_MODFILE%.mod}.sum" "$BUILD/c06.sum"
 go build -modfile="$BUILD/c06.mod" -o "$BUILD/c06" ./checks/c06
+# drop this tier's stale violation artefacts of earlier runs (ev numbers them from 1)
+[ "$#" -eq 0 ] && rm -f "$VERIF_ROOT/violations/C06/$VERIF_TIER"-*.json
 exec "$BUILD/c06" "$@"
